@@ -4,7 +4,7 @@ from fractions import Fraction as Fr
 
 from engine import loader
 from engine.runner import Acc
-from engine.util import call, chunks, ts_dec, ts_pair
+from engine.util import ca_for, call, chunks, ts_dec, ts_pair
 from spec import cpr as C
 from spec import cprsets as S
 from spec import frames as F
@@ -90,8 +90,8 @@ def w_lats(arg):
                     acc.c["different_NL_bands"] += 1
                     continue
                 tc = 5 + k % 4
-                m0 = F.es(C.me_surface(tc, k % 128, k % 2, (k * 5) % 128, 0, e0["yz"], e0["xz"], t=k % 2), 0x406B90 ^ (k % 5), 5, 17 + k % 2)
-                m1 = F.es(C.me_surface(5 + (k + 1) % 4, (k * 3) % 128, 1, k % 128, 1, e1["yz"], e1["xz"]), 0x406B90 ^ (k % 5), 5, 17 + k % 2)
+                m0 = F.es(C.me_surface(tc, k % 128, k % 2, (k * 5) % 128, 0, e0["yz"], e0["xz"], t=k % 2), 0x406B90 ^ (k % 5), ca_for(17 + k % 2, k // 2), 17 + k % 2)
+                m1 = F.es(C.me_surface(5 + (k + 1) % 4, (k * 3) % 128, 1, k % 128, 1, e1["yz"], e1["xz"]), 0x406B90 ^ (k % 5), ca_for(17 + k % 2, k // 2), 17 + k % 2)
                 acc.out.add((e0["yz"], e0["xz"], e1["yz"], e1["xz"]))
                 if k % 11 == 0:
                     acc.n += 1
